@@ -48,7 +48,7 @@ Lemma redeem_facts cf c s o s1 x :
     tok_active (now s) t = true /\ grant_active (now s) g = true /\ sc = g_scope g /\
     exists d, 1 <= d /\ bump1 c s s1 d.
 Proof.
-  unfold is_redeem. destruct o as [| | |idx kw| | | | | | |]; try discriminate.
+  unfold is_redeem. destruct o as [| | |idx kw| | | | | | | | |]; try discriminate.
   destruct (nth_error (parsed s) idx) as [[e|cl c' redir|cl tok sc0]|] eqn:Ep; try discriminate.
   intros Hs H. apply andb_true_iff in H as [Hc Hx]. apply Nat.eqb_eq in Hc. subst c'.
   destruct x as [| | | | |a r i sc| | |]; try discriminate.
@@ -143,7 +143,8 @@ Proof.
   destruct (t_cls t) eqn:Ec; cbn [tcls_eqb];
     try (destruct (c_shared_key cf); intros H; inversion H; subst; cbn; intros Hi Hn; try contradiction;
          apply in_app_or in Hi as [Hi|[Hi|[]]]; [contradiction|discriminate]).
-  - destruct (c_oidc cf && negb (t_used t =? 0)).
+  - destruct (g_removed g); [intros H; inversion H; subst; cbn; intros Hi Hn; contradiction|].
+    destruct (c_oidc cf && negb (t_used t =? 0)).
     + intros H; inversion H; subst; cbn. intros Hi Hn. apply in_app_or in Hi as [Hi|[Hi|[]]]; [contradiction|discriminate].
     + destruct (tok_active (now s) t) eqn:Ea; cbn [negb].
       * intros H; inversion H; subst; cbn. intros Hi Hn. apply in_app_or in Hi as [Hi|[Hi|[]]]; [contradiction|].
@@ -155,13 +156,13 @@ Qed.
 (* OIDC: presenting a code that has been used revokes every token derived from it *)
 Theorem oidc_replay_revokes cf s cl id redir s1 x g t :
   c_oidc cf = true ->
-  find_tok id s = Some (g, t) -> t_cls t = Code -> t_used t <> 0 ->
+  find_tok id s = Some (g, t) -> g_removed g = false -> t_cls t = Code -> t_used t <> 0 ->
   step cf s (TokenParse cl (TRef id) redir) = (s1, x) ->
   x = OErr EInvalidGrant /\
   forall k tk, tget k s = Some tk -> t_grant tk = t_grant t -> t_based tk = Some id ->
                exists tk', tget k s1 = Some tk' /\ t_revoked tk' = true.
 Proof.
-  intros Ho Hf Hc Hu. cbn [step]. unfold do_token_parse, resolve_as. rewrite Hf, Hc. cbn [tcls_eqb]. rewrite Ho.
+  intros Ho Hf Hrm Hc Hu. cbn [step]. unfold do_token_parse, resolve_as. rewrite Hf, Hc. cbn [tcls_eqb]. rewrite Hrm, Ho.
   assert ((t_used t =? 0) = false) as -> by (now apply Z.eqb_neq). cbn [negb andb].
   intros H; inversion H; subst; clear H. split; auto.
   intros k tk Hk Hg Hb. unfold tget, push_parsed, revoke_derived, map_toks in *; cbn.
